@@ -9,6 +9,7 @@ import (
 	"errors"
 	"fmt"
 	"io"
+	"io/fs"
 	"net/http"
 	"net/http/httptest"
 	"net/netip"
@@ -18,6 +19,7 @@ import (
 	"sort"
 	"strings"
 	"sync"
+	"syscall"
 	"time"
 
 	"github.com/tailscale/setec/acl"
@@ -27,6 +29,9 @@ import (
 	"github.com/tailscale/setec/server"
 	"github.com/tailscale/setec/types/api"
 	"github.com/tink-crypto/tink-go/v2/aead"
+	"github.com/tink-crypto/tink-go/v2/insecurecleartextkeyset"
+	tinkpb "github.com/tink-crypto/tink-go/v2/proto/tink_go_proto"
+	"google.golang.org/protobuf/proto"
 	"github.com/tink-crypto/tink-go/v2/keyset"
 	"github.com/tink-crypto/tink-go/v2/tink"
 	"tailscale.com/client/tailscale/apitype"
@@ -41,6 +46,8 @@ import (
 // KEK wraps a real AEAD, counts calls and can be switched to an outage.
 type KEK struct {
 	inner  tink.AEAD
+	h      *keyset.Handle // nil for keys loaded from a fixture
+	Rotations int
 	mu     sync.Mutex
 	Calls  int
 	Outage bool
@@ -54,11 +61,12 @@ func (k *KEK) Encrypt(pt, ad []byte) ([]byte, error) {
 	if out {
 		k.Denied++
 	}
+	in := k.inner
 	k.mu.Unlock()
 	if out {
 		return nil, errors.New("sim: key service outage")
 	}
-	return k.inner.Encrypt(pt, ad)
+	return in.Encrypt(pt, ad)
 }
 
 func (k *KEK) Decrypt(ct, ad []byte) ([]byte, error) {
@@ -68,18 +76,59 @@ func (k *KEK) Decrypt(ct, ad []byte) ([]byte, error) {
 	if out {
 		k.Denied++
 	}
+	in := k.inner
 	k.mu.Unlock()
 	if out {
 		return nil, errors.New("sim: key service outage")
 	}
-	return k.inner.Decrypt(ct, ad)
+	return in.Decrypt(ct, ad)
 }
 
 func (k *KEK) Count() int { k.mu.Lock(); defer k.mu.Unlock(); return k.Calls }
 
+// Rotate does what an operator's key rotation does: a fresh key is added to
+// the keyset and made primary; the earlier keys stay enabled, so everything
+// wrapped before still opens. The process-wide handle is cloned first.
+func (k *KEK) Rotate() bool {
+	if k.h == nil {
+		return false
+	}
+	ks := proto.Clone(insecurecleartextkeyset.KeysetMaterial(k.h)).(*tinkpb.Keyset)
+	h, err := insecurecleartextkeyset.Read(&keyset.MemReaderWriter{Keyset: ks})
+	if err != nil {
+		panic(err)
+	}
+	mgr := keyset.NewManagerFromHandle(h)
+	tmpl := aead.AES256GCMKeyTemplate()
+	if k.Rotations%2 == 1 {
+		tmpl = aead.XChaCha20Poly1305KeyTemplate()
+	}
+	id, err := mgr.Add(tmpl)
+	if err != nil {
+		panic(err)
+	}
+	if err := mgr.SetPrimary(id); err != nil {
+		panic(err)
+	}
+	h2, err := mgr.Handle()
+	if err != nil {
+		panic(err)
+	}
+	a, err := aead.New(h2)
+	if err != nil {
+		panic(err)
+	}
+	k.mu.Lock()
+	k.h, k.inner = h2, a
+	k.Rotations++
+	k.mu.Unlock()
+	return true
+}
+
 var (
-	kekOnce sync.Once
-	kekPool []tink.AEAD
+	kekOnce    sync.Once
+	kekPool    []tink.AEAD
+	kekHandles []*keyset.Handle
 )
 
 // NewKEK returns a wrapper around the i-th process-wide real AEAD (AES-GCM,
@@ -101,9 +150,10 @@ func NewKEK(i int) *KEK {
 				panic(err)
 			}
 			kekPool = append(kekPool, a)
+			kekHandles = append(kekHandles, h)
 		}
 	})
-	return &KEK{inner: kekPool[i%len(kekPool)]}
+	return &KEK{inner: kekPool[i%len(kekPool)], h: kekHandles[i%len(kekPool)]}
 }
 
 // ---- audit sink ----
@@ -136,6 +186,32 @@ type Sink struct {
 	OnSync   func()
 }
 
+// faultErr is the error an injected audit failure reports. What a failing log
+// says varies in practice (an errno inside a PathError, a closed file, a
+// deadline, an EOF from a pipe); none of it may be mistaken for success. The
+// choice is a pure function of the run's seed and the record index.
+func (k *Sink) faultErr(op string, idx int) error {
+	switch kernel.Hash64(k.e.S.T.Seed, "audit-err-"+op, uint64(idx)) % 9 {
+	case 0:
+		return &fs.PathError{Op: op, Path: "audit.log", Err: syscall.EIO}
+	case 1:
+		return &fs.PathError{Op: op, Path: "audit.log", Err: syscall.ENOSPC}
+	case 2:
+		return &fs.PathError{Op: op, Path: "audit.log", Err: os.ErrClosed}
+	case 3:
+		return io.ErrClosedPipe
+	case 4:
+		return os.ErrDeadlineExceeded
+	case 5:
+		return io.EOF
+	case 6:
+		return &fs.PathError{Op: op, Path: "audit.log", Err: syscall.EINTR}
+	case 7:
+		return context.Canceled
+	}
+	return errors.New("sim: audit " + op + " error")
+}
+
 func (k *Sink) Write(p []byte) (int, error) {
 	e := k.e
 	if e.observing {
@@ -163,7 +239,7 @@ func (k *Sink) Write(p []byte) (int, error) {
 	if fail && kind == 0 {
 		e.S.Fault("audit-write-error")
 		e.auditFailed(nil)
-		return 0, errors.New("sim: audit write error")
+		return 0, k.faultErr("write", idx)
 	}
 	if fail && kind == 1 {
 		e.S.Fault("audit-short-write")
@@ -233,7 +309,7 @@ func (k *Sink) Sync() error {
 	if fs {
 		e.S.Fault("audit-sync-error")
 		e.auditFailed(nil)
-		return errors.New("sim: audit sync error")
+		return k.faultErr("sync", covered)
 	}
 	return nil
 }
